@@ -33,7 +33,7 @@ require (
 	github.com/dennwc/varint v1.0.0 // indirect
 	github.com/dustin/go-humanize v1.0.0 // indirect
 	github.com/fasthttp/router v1.4.1
-	github.com/fasthttp/websocket v1.5.12 // indirect
+	github.com/fasthttp/websocket v1.5.12
 	github.com/go-co-op/gocron v1.31.1
 	github.com/go-kit/log v0.2.1 // indirect
 	github.com/go-logfmt/logfmt v0.6.0 // indirect
